@@ -342,3 +342,37 @@ def x6_fallback_contract(ctx) -> None:
                               "so a verified class that needs them now aborts the whole expansion")
     if not bad:
         ctx.ok("X6", "a fruitless search leaves expand_comb_class as SpecificationNotFound")
+
+
+def x7_pack_refusal_is_what_is_caught(ctx) -> None:
+    """`unexpanded_verified_classes` asks every verified class for a pack and skips the ones
+    that refuse; the refusal it recognises must be the one the library's default
+    `VerificationStrategy.pack` (inherited by every strategy that offers none) signals."""
+    P = ctx.P
+    u = P.need_method(SPEC, "unexpanded_verified_classes", own=True)
+    ctx.analysed(u)
+    caught: Set[str] = set()
+    for t in walk_local(u.node):
+        if isinstance(t, ast.Try) and any(isinstance(c, ast.Call) and norm(c.func).endswith(".pack") for s_ in t.body for c in ast.walk(s_)):
+            for h in t.handlers:
+                if h.type is None:
+                    caught.add("BaseException")
+                else:
+                    for x in (h.type.elts if isinstance(h.type, ast.Tuple) else [h.type]):
+                        caught.add(norm(x).split(".")[-1])
+    if not caught:
+        ctx.violation("X7", u.node, "unexpanded_verified_classes no longer asks rule.pack() under a handler", construct=f"{SPEC}.unexpanded_verified_classes handler")
+        return
+    d = P.need_method("VerificationStrategy", "pack", own=True)
+    ctx.analysed(d)
+    raised = {norm(r.exc.func if isinstance(r.exc, ast.Call) else r.exc).split(".")[-1] for r in C.raises_of(d.node) if r.exc is not None}
+    if not raised:
+        ctx.violation("X7", d.node, "the default VerificationStrategy.pack no longer refuses by raising", construct="VerificationStrategy.pack refusal")
+        return
+    sup = {"InvalidOperationError": {"Exception", "BaseException"}, "NotImplementedError": {"RuntimeError", "Exception", "BaseException"}}
+    missing = [r for r in raised if r not in caught and not (sup.get(r, {"Exception", "BaseException"}) & caught)]
+    if missing:
+        ctx.violation("X7", d.node, f"the default VerificationStrategy.pack refuses with {sorted(raised)}, but unexpanded_verified_classes only skips on {sorted(caught)}: a verified "
+                      "class whose strategy offers no pack makes expand_verified fail instead of being left as it is", construct="VerificationStrategy.pack refusal")
+    else:
+        ctx.ok("X7", f"a strategy without a pack refuses with {sorted(raised)}, which unexpanded_verified_classes skips")
